@@ -1574,6 +1574,13 @@ func (l *lexer) linebreak() bool {
 				hash = true
 				l.mark(-1)
 			}
+		case '\t', ' ':
+			// <blank>: a line of blanks is a blank line
+			if hash {
+				l.b.WriteRune(r)
+			} else {
+				l.mark(0)
+			}
 		default:
 			if !hash {
 				l.unread()
